@@ -186,6 +186,15 @@ func ruleTmpDistinct(w *World, r *RuleResult) {
 				key := fmt.Sprintf("%s | big.%s pointer-compared argument", name, m)
 				arg := c.Common().Args[pc[0]]
 				other := c.Common().Args[pc[1]]
+				// in the wrapper of the same name the arguments line up with the parameters: what is
+				// required is that, when the two BigInts are one object, both positions receive one view
+				if m == w.wrapperMethod(f) && len(c.Common().Args) == len(f.Params) {
+					va, vo := w.viewUnderPair(f, pc[0], pc[1], arg), w.viewUnderPair(f, pc[0], pc[1], other)
+					if len(va) == 1 && len(vo) == 1 && va[0] == vo[0] {
+						r.ok(key, w.instrPos(c), fmt.Sprintf("when %s and %s are one object both positions receive the same *big.Int", f.Params[pc[0]].Name(), f.Params[pc[1]].Name()), true)
+						continue
+					}
+				}
 				// the view may be chosen among several (a φ): what counts is the one that is passed when the
 				// two BigInts are the same object
 				if phi, isPhi := arg.(*ssa.Phi); isPhi {
@@ -774,37 +783,45 @@ func (w *World) phiUnderAliasing(f *ssa.Function, phi *ssa.Phi) (ssa.Value, bool
 	if ri < 0 || ai < 0 {
 		return nil, false
 	}
-	c := &flowCtx{w: w, k: flowKey{f, ri, ai}, f: f}
-	c.computeDead()
-	live := map[ssa.Value]bool{}
-	var collect func(v ssa.Value, d int)
-	collect = func(v ssa.Value, d int) {
-		x, isPhi := v.(*ssa.Phi)
-		if !isPhi || d > 4 {
-			live[v] = true
-			return
-		}
-		for i, e := range x.Edges {
-			pred := x.Block().Preds[i]
-			deadEdge := c.dead[pred]
-			for si, s := range pred.Succs {
-				if s == x.Block() && c.edgeDead(pred, si) {
-					deadEdge = true
-				}
-			}
-			if !deadEdge {
-				collect(e, d+1)
-			}
-		}
+	// the convention for a pair under analysis: the two are one non-nil object, every other parameter is
+	// a different object
+	dead, deadE := deadUnderPair(f, ri, ai)
+	leaves := liveLeaves(phi, dead, deadE, 0)
+	uniq := map[ssa.Value]bool{}
+	for _, l := range leaves {
+		uniq[l] = true
 	}
-	collect(phi, 0)
-	if len(live) != 1 {
+	if len(uniq) != 1 {
 		return nil, false
 	}
-	for v := range live {
-		return v, true
+	return leaves[0], true
+}
+
+// deadUnderPair: blocks and edges of f that are dead when parameters i and j are one non-nil object and
+// every other parameter is a different object.
+func deadUnderPair(f *ssa.Function, i, j int) (map[*ssa.BasicBlock]bool, map[[2]int]bool) {
+	pidx := func(v ssa.Value) int {
+		for k, q := range f.Params {
+			if ssa.Value(q) == v {
+				return k
+			}
+		}
+		return -1
 	}
-	return nil, false
+	inE := func(k int) bool { return k == i || k == j }
+	return deadUnder(f, func(bo *ssa.BinOp) (bool, bool) {
+		x, y := pidx(bo.X), pidx(bo.Y)
+		eq := false
+		switch {
+		case x >= 0 && y >= 0:
+			eq = x == y || (inE(x) && inE(y))
+		case x >= 0 && inE(x) && isNilConst(bo.Y), y >= 0 && inE(y) && isNilConst(bo.X):
+			eq = false
+		default:
+			return false, false
+		}
+		return eq == (bo.Op == token.EQL), true
+	})
 }
 
 // provOperandDistinct: provenance for f in which the edges taken only when operand parameter oi is the
